@@ -207,7 +207,7 @@ fn sweep_scripts(id: &str) -> Vec<(&'static str, u64, u64, ScriptFn)> {
         "C02" => vec![("wrap", 1000, 100_000, wrap_script), ("disconnect-given-up-then-resume", 300, 30_000, crate::scripts::disconnect_given_up_script), ("flush-fault-then-resume", 300, 30_000, crate::scripts::c06_flush_fault_script)],
         "C05" | "C18" => vec![("many-fresh-sessions", 24, 600, crate::scripts::fresh_sessions_script)],
         "C03" => vec![("window-saturation", 500, 50_000, crate::scripts::saturation_script), ("wrap", 400, 40_000, wrap_script), ("disconnect-given-up-then-resume", 300, 30_000, crate::scripts::disconnect_given_up_script), ("release-on-a-full-arena", 300, 30_000, crate::scripts::release_on_a_full_arena_script)],
-        "C16" => vec![("wrap", 300, 30_000, wrap_script), ("window-saturation", 200, 20_000, crate::scripts::saturation_script), ("ping-between-pieces", 200, 20_000, crate::scripts::ping_between_pieces_script), ("release-on-a-full-arena", 200, 20_000, crate::scripts::release_on_a_full_arena_script)],
+        "C16" => vec![("wrap", 300, 30_000, wrap_script), ("window-saturation", 200, 20_000, crate::scripts::saturation_script), ("ping-between-pieces", 200, 20_000, crate::scripts::ping_between_pieces_script), ("release-on-a-full-arena", 200, 20_000, crate::scripts::release_on_a_full_arena_script), ("probe-due-on-a-full-send-buffer", 200, 20_000, crate::scripts::stalled_probe_script)],
         "C01" => vec![("ping-between-pieces", 200, 20_000, crate::scripts::ping_between_pieces_script), ("wrap", 400, 40_000, wrap_script), ("disconnect-given-up-then-resume", 300, 30_000, crate::scripts::disconnect_given_up_script)],
         "C11" => vec![("partial-then-disconnect", 300, 30_000, crate::scripts::c11_script)],
         _ => vec![],
@@ -224,9 +224,11 @@ impl SweepCheck {
             d.round_trip = self.round_trip;
             d.tight_limits = self.id == "C16";
             d.redeliver = self.id == "C16";
-            let (mut log, world) = run_case(&cfg, seed, &mut d, n + self.epilogue_polls + 32);
+            d.stay_first = self.id == "C16";
+            let (mut log, world) = run_case(&cfg, seed, &mut d, n + self.epilogue_polls + 48);
             log.epilogue = true;
             log.epilogue_from = d.from_step;
+            log.stay_from = d.stay_from;
             log.epilogue_polls_max = self.epilogue_polls;
             (log, world)
         } else {
@@ -253,9 +255,11 @@ impl SweepCheck {
             d.redeliver = self.id == "C16";
             d.force_fresh = fresh;
             d.fresh_small_window = small;
-            let (mut log, world) = run_case(&cfg, seed, &mut d, max_steps + self.epilogue_polls + 32);
+            d.stay_first = self.id == "C16";
+            let (mut log, world) = run_case(&cfg, seed, &mut d, max_steps + self.epilogue_polls + 48);
             log.epilogue = true;
             log.epilogue_from = d.from_step;
+            log.stay_from = d.stay_from;
             log.epilogue_polls_max = self.epilogue_polls;
             log.hostile = hostile;
             (log, world)
